@@ -378,6 +378,7 @@ theorem Inv3.step {s : AState} (i : Inv3 s) (j : Inv1 s) (op : Op) (hop : OpOK s
     · exact i0
     · rename_i a ha
       exact Inv3.resume i0 _ _ _ _ _ (stored_h1 i0 ha) (stored_h2 j0 ha)
+  | flush => exact Inv3.setW i _
   | recover a known =>
     simp only [Pool.C08.step]
     obtain ⟨hr, _, _⟩ := hop
